@@ -6,6 +6,7 @@ from __future__ import annotations
 from typing import List, Optional
 
 from .base import *  # noqa: F401,F403
+from .. import boolfn
 from .r11_reply import is_simulation_error
 
 RUN = "mosaik.scenario.World.run"
@@ -26,7 +27,113 @@ def run(ctx: Ctx) -> Collector:
     _ancestors(ctx, c)
     _interval(ctx, c)
     _group_scope(ctx, c)
+    _depth(ctx, c)
     return c
+
+
+def _depth_iterative(fn) -> Optional[tuple]:
+    """`d = k; g = self; while g.parent [is not None]: g = g.parent; d += i; return d` -> (k, i)"""
+    import ast
+    body = [st for st in fn.body if not (isinstance(st, ast.Expr) and isinstance(st.value, ast.Constant))]
+    if len(body) < 3 or not isinstance(body[-1], ast.Return) or not isinstance(body[-1].value, ast.Name) or not isinstance(body[-2], ast.While):
+        return None
+    cnt = body[-1].value.id
+    wl = body[-2]
+    me = fn.args.args[0].arg
+    inits = {}
+    for st in body[:-2]:
+        tg = st.targets[0] if isinstance(st, ast.Assign) and len(st.targets) == 1 else (st.target if isinstance(st, ast.AnnAssign) and st.value is not None else None)
+        if not isinstance(tg, ast.Name):
+            return None
+        inits[tg.id] = st.value
+    k0 = inits.get(cnt)
+    if not (isinstance(k0, ast.Constant) and isinstance(k0.value, int)):
+        return None
+    walkers = [n for n, v in inits.items() if isinstance(v, ast.Name) and v.id == me]
+    w = walkers[0] if walkers else None
+    if w is None or wl.orelse:
+        return None
+    t = wl.test
+    if isinstance(t, ast.Compare) and len(t.ops) == 1 and isinstance(t.ops[0], ast.IsNot) and isinstance(t.comparators[0], ast.Constant) and t.comparators[0].value is None:
+        t = t.left
+    if not (isinstance(t, ast.Attribute) and t.attr == "parent" and isinstance(t.value, ast.Name) and t.value.id == w):
+        return None
+    inc = None
+    step = False
+    for st in wl.body:
+        if isinstance(st, ast.AugAssign) and isinstance(st.target, ast.Name) and st.target.id == cnt and isinstance(st.op, ast.Add) and isinstance(st.value, ast.Constant) and inc is None:
+            inc = st.value.value
+        elif isinstance(st, ast.Assign) and len(st.targets) == 1 and isinstance(st.targets[0], ast.Name) and st.targets[0].id == w and isinstance(st.value, ast.Attribute) \
+                and st.value.attr == "parent" and isinstance(st.value.value, ast.Name) and st.value.value.id == w and not step:
+            step = True
+        else:
+            return None
+    if inc is None or not step:
+        return None
+    return k0.value, inc
+
+
+def _depth(ctx: Ctx, c: Collector) -> None:
+    """The depth of a group is the number of tiers of its simulators' time: 1 for a group without parent, one more than the
+    parent's otherwise.  Every tier length (SimRunner, connect_interval) is read off it."""
+    qn = "mosaik.scenario.SimGroup.depth"
+    fi = ctx.prog.functions.get(qn)
+    if fi is None:
+        raise AnalysisError(f"R19: {qn} not found")
+    s = ctx.summ(qn)
+    me = T.var(fi.params[0])
+    par = ("attr", me, "parent")
+    pr = []
+    unknown = None
+    it = _depth_iterative(fi.node)
+    if it is not None:
+        k0, inc = it
+        if k0 != 1:
+            pr.append(f"a group without parent has depth {k0} instead of 1 (its simulators' time has one tier)")
+        if inc != 1:
+            pr.append(f"every enclosing group adds {inc} to the depth instead of 1")
+        if pr:
+            c.bad("interval", qn, "depth = 1 + number of enclosing groups", "; ".join(pr), fi.loc)
+        else:
+            c.ok("interval", qn, "depth = 1 + number of enclosing groups", "counted along the parent chain, starting from 1", fi.loc)
+        return
+    try:
+        for has in (False, True):
+            def truthy(t, has=has):
+                t = T.strip(t)
+                if t == par:
+                    return has
+                if t == ("cmp", "is", par, T.NONE):
+                    return not has
+                if t == ("cmp", "isnot", par, T.NONE):
+                    return has
+                return None
+            live = [r for r in s.returns if boolfn.guards_hold(r.guards, {}, truthy)]
+            if len(live) != 1:
+                unknown = "the value is not a plain case distinction on `parent`"
+                break
+            v = T.strip(boolfn.resolve_phi(live[0].term, {}, truthy))
+            if not has:
+                if v != T.const(1):
+                    if v[0] == "const":
+                        pr.append(f"a group without parent has depth {v[1]} instead of 1 (its simulators' time has one tier)")
+                    else:
+                        unknown = f"depth of a root group is {T.show(v)[:60]}"
+            else:
+                pd = ("attr", par, "depth")
+                if v not in (("op", "+", pd, T.const(1)), ("op", "+", T.const(1), pd)):
+                    if T.contains((v,), pd) or v[0] == "const":
+                        pr.append(f"the depth of a nested group is {T.show(v)[:60]} instead of parent.depth + 1")
+                    else:
+                        unknown = f"depth of a nested group is {T.show(v)[:60]}"
+    except (boolfn.NotBoolean, KeyError) as ex:
+        unknown = f"condition not understood: {ex}"
+    if pr:
+        c.bad("interval", qn, "depth = 1 + number of enclosing groups", "; ".join(pr), fi.loc)
+    elif unknown:
+        c.unk("interval", qn, "depth = 1 + number of enclosing groups", unknown, fi.loc)
+    else:
+        c.ok("interval", qn, "depth = 1 + number of enclosing groups", "1 without parent, parent.depth + 1 otherwise", fi.loc)
 
 
 GROUP_CM = "mosaik.scenario.World.group"
